@@ -241,6 +241,64 @@ func selftestSummary(p *Property, repo, verif string) []selftestResult {
 		out = append(out, r)
 	}
 	out = append(out, seededRegression(p, repo, verif)...)
+	out = append(out, benignRegression(p, repo, verif)...)
+	return out
+}
+
+// benignRegression applies every behaviour-preserving refactoring under <verif>/benign to a scratch copy and requires
+// this property's check to stay silent (exit 0): a report there is a false alarm of the checker.
+func benignRegression(p *Property, repo, verif string) []selftestResult {
+	var out []selftestResult
+	patches, _ := filepath.Glob(filepath.Join(verif, "benign", "*", "patch.diff"))
+	sort.Strings(patches)
+	for _, pf := range patches {
+		name := "benign/" + filepath.Base(filepath.Dir(pf))
+		res := selftestResult{Name: name, Rule: p.ID + " must stay silent"}
+		tmp, err := os.MkdirTemp("", "stfs-verif-")
+		if err != nil {
+			res.Status, res.Detail = "broken", err.Error()
+			out = append(out, res)
+			continue
+		}
+		scratch := filepath.Join(tmp, "repo")
+		tverif := filepath.Join(tmp, "verif")
+		os.MkdirAll(filepath.Join(tverif, "evidence"), 0o755)
+		if kb, err := os.ReadFile(filepath.Join(verif, "known_findings.json")); err == nil {
+			os.WriteFile(filepath.Join(tverif, "known_findings.json"), kb, 0o644)
+		}
+		if err := copyTree(repo, scratch); err != nil {
+			res.Status, res.Detail = "broken", err.Error()
+		} else {
+			ap := exec.Command("git", "apply", pf)
+			ap.Dir = scratch
+			if o, err := ap.CombinedOutput(); err != nil {
+				res.Status, res.Detail = "skipped", "patch no longer applies: "+truncate(strings.TrimSpace(string(o)), 120)
+			} else {
+				exe, _ := os.Executable()
+				cmd := exec.Command(exe, "-p", p.ID, "-tier", "quick", "-repo", scratch, "-verif", tverif)
+				o, err := cmd.CombinedOutput()
+				text := string(o)
+				switch {
+				case strings.Contains(text, "BROKEN: type/load errors"):
+					res.Status, res.Detail = "skipped", "patched tree does not load"
+				case err == nil:
+					res.Status, res.Detail = "caught", "silent on a behaviour-preserving refactoring" // "caught" = expectation met
+				default:
+					res.Status = "missed" // expectation not met: the checker raised an alarm
+					for _, l := range strings.Split(text, "\n") {
+						t := strings.TrimSpace(l)
+						if strings.HasPrefix(t, "VIOLATED ") || strings.HasPrefix(t, "UNDECIDED ") || strings.HasPrefix(t, "UNRESOLVED ") || strings.HasPrefix(t, "BROKEN") {
+							res.Detail = "FALSE ALARM on a behaviour-preserving refactoring: " + truncate(t, 200)
+							break
+						}
+					}
+				}
+			}
+		}
+		os.RemoveAll(tmp)
+		fmt.Printf("sensitivity %-40s %-8s %s\n", name, res.Status, res.Detail)
+		out = append(out, res)
+	}
 	return out
 }
 
